@@ -485,3 +485,19 @@ def _read_list(name):
 
 KNOWN_FUNCS = _read_list("known_functions.txt")
 KNOWN_CLASSES = _read_list("known_classes.txt")
+
+
+def _read_params():
+    path = os.path.join(os.path.dirname(os.path.abspath(__file__)), "known_params.txt")
+    out = {}
+    try:
+        for l in open(path):
+            if l.strip() and not l.startswith("#"):
+                q, *ps = l.split()
+                out[q] = set(ps)
+    except OSError:
+        pass
+    return out
+
+
+KNOWN_PARAMS = _read_params()
